@@ -23,7 +23,7 @@
 
    Error classes: tool errors by their code (>= 100), recovered panic = 4, everything else
    the node reports (unknown tool, bad role, no call, empty stream) = one class 0. *)
-From Eino Require Import Base.Util Model.Concat Model.ConcatMsg Model.Tools Model.ToolsMsg Model.ToolsOpts.
+From Eino Require Import Base.Util Model.Concat Model.ConcatMsg Model.Tools Model.ToolsMsg Model.ToolsOpts Model.ToolsPar.
 Local Open Scope string_scope.
 
 (* b_bare: the output is the chunks as they are (no "<tag><name>:" prefix), so that a tool can
@@ -100,7 +100,11 @@ Inductive sobs : Type :=
 Inductive run : Type :=
 | RInvoke (h : host) (pi : list nat) (o : iobs) (ex : list xcall)
 | RStream (h : host) (pi : list nat) (o : sobs) (ex : list xcall)
-| RConcat (pi : list nat) (o : cobs) (ex : list xcall).
+| RConcat (pi : list nat) (o : cobs) (ex : list xcall)
+(* static: what a task's goroutine executes in parallelRunToolCall (the tool, the deferred recover
+   handler, the deferred wg.Done, in execution order), read from the source the harness was built
+   against; attached to the cases in which a goroutine task panics *)
+| RStatic (prog : list gact).
 
 Record ccase : Type := mkCase {
   k_tdefs : list tdef;
@@ -290,6 +294,8 @@ Section Case.
     | RInvoke h pi o ex => invoke_ok h pi o && exec_ok ex
     | RStream h pi o ex => stream_ok h pi o && exec_ok ex
     | RConcat pi o ex => concat_ok pi o && exec_ok ex
+    (* the program the protocol theorems (tools_par_invoke_refines, ...) are about *)
+    | RStatic prog => prog_eqb prog prog_ok
     end.
 End Case.
 
